@@ -15,6 +15,7 @@ import (
 
 func init() {
 	verifrt.Register("H_C20_Strays", H_C20_Strays)
+	verifrt.Register("H_C20_Held", H_C20_Held)
 	verifrt.Register("H_C20_Prune", H_C20_Prune)
 }
 
@@ -152,4 +153,46 @@ func H_C20_Prune(v *verifrt.T) {
 	if ages[d2] >= minAge {
 		v.Assert(!v.Exists(d2), "C20.O3 an empty, old directory is removed")
 	}
+}
+
+// O2b: a file that is validated but held for a predecessor that has not arrived
+// (its body is <name>.wait, its record <name>.cmp) while a stale duplicate
+// partial of the same name lies around (the sender announced it again and never
+// sent a byte): cleaning may remove the stale partial, but the held file keeps
+// its record — after a restart recovery still finds it, and it is delivered
+// once its predecessor arrives.
+func H_C20_Held(v *verifrt.T) {
+	size := v.Int64("size")
+	v.Assume(size >= 1)
+	v.Assume(size <= 4096)
+	h1 := v.Version("v1", size)
+	hp := v.Version("P", size)
+	e := newEnv(v)
+	v.Assert(e.sendPart("a", "p", h1, size, 0, size, "v1") == nil, "C20 set-up: the file is received")
+	v.Quiesce()
+	wait := filepath.Join(e.stage, "a.wait")
+	cmpPath := filepath.Join(e.stage, "a.cmp")
+	v.Assert(v.Exists(wait) && v.Exists(cmpPath), "C20 set-up: validated and held for its predecessor")
+	// announced again, nothing sent
+	e.s.Prepare([]sts.Binned{&vBinned{name: "a", prev: "p", hash: h1, size: size, beg: 0, end: size, t: v.Now()}})
+	part := filepath.Join(e.stage, "a.part")
+	if v.Exists(part) {
+		v.Reach("stale-partial")
+		age := v.Duration("age", 0, 72*time.Hour)
+		v.Assume(verifrt.Or(age+time.Minute <= 24*time.Hour, age >= 24*time.Hour+time.Minute))
+		v.SetAge(part, age)
+	}
+	e.s.CleanNow()
+	v.Quiesce()
+	v.Assert(v.Exists(wait), "C20.O2 cleaning never removes a validated file that waits for its predecessor")
+	v.Assert(v.Exists(cmpPath), "C20.O2 a held file keeps its record while it waits (recovery finds it only through that record)")
+	// restart, then the predecessor arrives
+	e.restart()
+	v.Quiesce()
+	v.Assert(e.sendPart("p", "", hp, size, 0, size, "P") == nil, "part received")
+	v.Quiesce()
+	v.FireTimers()
+	v.Quiesce()
+	v.Assert(v.FileIs(filepath.Join(e.final, "a"), "v1"), "C20/C06 the held file is delivered after the restart, once its predecessor has arrived")
+	v.Reach("delivered")
 }
